@@ -9,6 +9,10 @@ CHECK = Check(
         # pow / tanh / exp kernels: Go math vs libm differ by <= 3 ulp
         Family("K", rtol=1e-9, atol_scale=1e-12, args=["models=GR4J,Simhyd,Surm,Sacramento", "prop=C10", "n=250"],
                label="K-transcendental"),
+        # Sacramento in its numerically ill-conditioned wet regime (tiny supplemental store, ~50 increments/day):
+        # property oracle only, no 1e-9 comparison (see harness models_rr.go sacParamsWet)
+        Family("KORACLE", compare=False, args=["models=Sacramento", "variant=wet", "prop=C10", "n=150"],
+               label="KORACLE-sacramento-wet"),
     ],
     level="proof",
     trusted=[
